@@ -40,6 +40,7 @@ CONSTANTS
     OnceKinds,    \* kinds used at most once per tree
     MaxOnce,      \* at most this many OnceKinds events per tree
     PosSet,       \* log positions of a single event
+    EmptyMine,    \* may a single block without events be mined (FALSE: eventless blocks only as runs)
     MaxPerBlock, MaxBlocks, MaxEvents, MaxLeaves,
     GapSet, MaxRuns, MaxSwitches,
     Faults,       \* set of <<k, w>>: the faults of Poll1
@@ -79,9 +80,11 @@ KindOf(e) == CHOOSE i \in DOMAIN EvKinds : [EvKinds[i] EXCEPT !.pos = e.pos] = e
 UsedKinds(b) == UNION {{KindOf(b[x].evs[j]) : j \in 1..Len(b[x].evs)} : x \in 2..Len(b)}
 OnceUsed(b) == UsedKinds(b) \cap OnceKinds
 
+(* the kinds of the root block (the constructors' events) are not mined again *)
+MineKinds == DOMAIN EvKinds \ {RootEvs[i][1] : i \in DOMAIN RootEvs}
 Contents ==
-    {<<>>} \cup {<< <<i, p>> >> : i \in DOMAIN EvKinds, p \in PosSet}
-    \cup (IF MaxPerBlock >= 2 THEN {<< <<i, 0>>, <<j, 1>> >> : i \in DOMAIN EvKinds, j \in DOMAIN EvKinds} ELSE {})
+    (IF EmptyMine THEN {<<>>} ELSE {}) \cup {<< <<i, p>> >> : i \in MineKinds, p \in PosSet}
+    \cup (IF MaxPerBlock >= 2 THEN {<< <<i, 0>>, <<j, 1>> >> : i \in MineKinds, j \in MineKinds} ELSE {})
 
 DeployOf(t) == IF t = "ks" THEN DeployKs ELSE DeployCo
 
@@ -98,16 +101,15 @@ Env(b, c, op, e) ==
     /\ hist' = H(e)
     /\ UNCHANGED <<ob, tags>>
 
-Mine(p, c) ==
+Mine(p, c, used) ==
     /\ Free
     /\ Len(blk) < MaxBlocks
-    /\ p \in CS!AncSelf(blk, canon)
     /\ NumEvents(blk) + Len(c) <= MaxEvents
     /\ \A j \in 1..Len(c) : blk[p].num + 1 >= DeployOf(EvKinds[c[j][1]].t)
     /\ LET ks == {c[j][1] : j \in 1..Len(c)} IN
-       /\ ks \cap OnceUsed(blk) = {}
+       /\ ks \cap used = {}
        /\ (Len(c) = 2 /\ c[1][1] \in OnceKinds) => c[1][1] # c[2][1]
-       /\ Cardinality(OnceUsed(blk)) + Cardinality({j \in 1..Len(c) : c[j][1] \in OnceKinds}) <= MaxOnce
+       /\ Cardinality(used) + Cardinality({j \in 1..Len(c) : c[j][1] \in OnceKinds}) <= MaxOnce
     /\ LET nb == Append(blk, [num |-> blk[p].num + 1, par |-> p, evs |-> EvsOf(c), len |-> 1]) IN
        /\ Cardinality(Leaves(nb)) <= MaxLeaves
        /\ Env(nb, Len(blk) + 1, "mine",
@@ -118,7 +120,6 @@ Extend(p, k) ==
     /\ Free
     /\ Len(blk) < MaxBlocks
     /\ Cardinality({x \in DOMAIN blk : blk[x].len > 1}) < MaxRuns
-    /\ p \in CS!AncSelf(blk, canon)
     /\ LET nb == Append(blk, [num |-> blk[p].num + k, par |-> p, evs |-> <<>>, len |-> k]) IN
        /\ Cardinality(Leaves(nb)) <= MaxLeaves
        /\ Env(nb, Len(blk) + 1, "ext", <<1, p, k>>)
@@ -203,8 +204,11 @@ Catch2 ==
 Halt == Halting /\ Free /\ cnt' = [cnt EXCEPT !.halt = 1] /\ UNCHANGED <<blk, canon, ob, tags, last, hist>>
 
 Next ==
-    \/ \E p \in DOMAIN blk, c \in Contents : Mine(p, c)
-    \/ \E p \in DOMAIN blk, k \in GapSet : Extend(p, k)
+    \/ /\ Len(blk) < MaxBlocks
+       /\ LET used == OnceUsed(blk)
+              anc == CS!AncSelf(blk, canon)
+          IN \/ \E p \in anc, c \in Contents : Mine(p, c, used)
+             \/ \E p \in anc, k \in GapSet : Extend(p, k)
     \/ \E b \in DOMAIN blk : Switch(b)
     \/ \E f \in {"none", "db"} : Start1(f)
     \/ Poll1
